@@ -1,5 +1,4 @@
-import PsV.Proofs.EvalSpec
-import PsV.Props.C04
+import PsV.Proofs.Bridge
 /-!
 # C01 — evaluation equals the tensor-product B-spline sum it represents
 
@@ -13,68 +12,6 @@ driver runs; IEEE rounding is outside the theorem and is covered by the envelope
 namespace PsV
 variable {α : Type} [Field α] [LinearOrder α]
 attribute [local instance] Arith.ofField
-
-/-- Well-formed table, as far as evaluation is concerned. -/
-structure Table.WF (T : Table α) : Prop where
-  dims : ∀ d ∈ T.dims, d.WF
-  stride : lastStrideOne T.dims
-
-def AllNonDegenerate : List (Dim α) → List α → Prop
-  | d :: ds, x :: xs => NonDegenerate d x ∧ AllNonDegenerate ds xs
-  | _, _ => True
-
-theorem Dim.axis_WF (d : Dim α) (h : d.WF) : (Dim.axis d).WF := by
-  refine ⟨h.len, ?_⟩
-  intro i j hij hj
-  exact h.mono i j (by omega) (by exact_mod_cast hij) (by exact_mod_cast hj)
-
-theorem centerOK_of_spec (d : Dim α) (h : d.WF) (x : α) (c : Nat)
-    (hr : InRange (Dim.axis d) x) (hc : CenterSpec (Dim.axis d) x c) :
-    CenterOK d.knots d.nknots d.order x c := by
-  obtain ⟨h1, h2, h3, h4, h5⟩ := hc
-  obtain ⟨r1, r2⟩ := hr
-  have hlen := h.len
-  simp only [Dim.axis] at h1 h2 h3 h4 h5 r1 r2
-  have e1 : ((d.nknots - 1 : Nat) : Int) = (d.nknots : Int) - 1 := by omega
-  have e2 : ((d.nknots - d.order - 1 : Nat) : Int) = (d.nknots : Int) - d.order - 1 := by omega
-  have e3 : ((c + 1 : Nat) : Int) = (c : Int) + 1 := by omega
-  rw [e1] at r2
-  rw [e2] at h4 h5
-  rw [e3] at h5
-  exact ⟨hlen, h1, by omega, by simpa using r1, r2, h3, fun hx => by have := h4 hx; omega, h5, h.mono⟩
-
-theorem allOK_of_search : ∀ (ds : List (Dim α)) (xs : List α) (cs : List Nat),
-    (∀ d ∈ ds, d.WF) → ds.length = xs.length → AllNonDegenerate ds xs →
-    @searchCenters α (cmpLO α) (ds.map Dim.axis) xs = .ok cs → AllOK ds xs cs := by
-  intro ds
-  induction ds with
-  | nil =>
-    intro xs cs _ hl _ hs
-    cases xs with
-    | nil => simp [searchCenters] at hs; subst hs; trivial
-    | cons x xs => simp at hl
-  | cons d ds ih =>
-    intro xs cs hwf hl hnd hs
-    cases xs with
-    | nil => simp at hl
-    | cons x xs =>
-      have hd : d.WF := hwf d (by simp)
-      have hax := C04_searchAxis (Dim.axis d) x (Dim.axis_WF d hd)
-      simp only [List.map_cons, searchCenters] at hs
-      by_cases hr : InRange (Dim.axis d) x
-      · obtain ⟨c, hc1, hc2⟩ := hax.2 hr
-        rw [hc1] at hs
-        simp only at hs
-        cases hrest : @searchCenters α (cmpLO α) (List.map Dim.axis ds) xs with
-        | reject => rw [hrest] at hs; simp at hs
-        | nonterm => rw [hrest] at hs; simp at hs
-        | ok cs' =>
-          rw [hrest] at hs
-          simp only [Res.ok.injEq] at hs
-          subst hs
-          exact ⟨⟨hd, centerOK_of_spec d hd x c hr hc2, hnd.1⟩,
-            ih xs cs' (fun e he => hwf e (by simp [he])) (by simpa using hl) hnd.2 hrest⟩
-      · rw [hax.1 hr] at hs; simp at hs
 
 /-- **C01.**  For a well-formed table and a point at which the centre lookup succeeds, the evaluated
 value is the sum over all coefficients of coefficient × product of Cox–de Boor basis functions.
